@@ -459,7 +459,11 @@ func buildProps(s *Spec) map[string]*schema.PropertySchema {
 			ps.TreatEmptyAsDefaultValue()
 		}
 		if p.Disabled {
-			ps.Disable(p.DisabledReason)
+			if p.DisabledReason == "" {
+				ps.Disabled = true // disabled without a reason (what a description without disabled_reason rebuilds to)
+			} else {
+				ps.Disable(p.DisabledReason)
+			}
 		}
 		props[p.Name] = ps
 	}
